@@ -868,7 +868,9 @@ def run_check():
     rng = ck.rng
     match_checks(total, rng, 200 if quick else 3000)
     xr_checks(ck, total, rng, 6 if quick else 60)
-    variants = [dict(swells=2)] if quick else [dict(swells=2), dict(swells=3, ddpm_swell_max=30, dfp_swell_source_distance=3e5),
+    variants = [dict(swells=2), dict(swells=2, ddpm_swell_max=2, ddpm_sea_max=50, dfp_sea_scaling=3, dfp_swell_source_distance=2e5)] if quick else [
+        dict(swells=2, ddpm_swell_max=2, ddpm_sea_max=50, dfp_sea_scaling=3, dfp_swell_source_distance=2e5), dict(swells=3, ddpm_swell_max=8),
+        dict(swells=2, ddpm_sea_max=5), dict(swells=2, dfp_sea_scaling=0.25), dict(swells=2, dfp_swell_source_distance=5e4),dict(swells=2), dict(swells=3, ddpm_swell_max=30, dfp_swell_source_distance=3e5),
                                                dict(swells=2, ddpm_sea_max=45, dfp_sea_scaling=2)]
     ptm1_track_checks(ck, total, variants)
     id_storage_probe(ck, total)
